@@ -264,6 +264,7 @@ def rule_grow_clear(ctx, prog, chk):
                 continue
             n += 1
             cleared = False
+            short = None
             for nd in g.nodes:
                 if nd.kind != "el":
                     continue
@@ -277,11 +278,27 @@ def rule_grow_clear(ctx, prog, chk):
                     if isinstance(l, list) and l[0] == "x" and ir.base_var(fn, l[1]) == bv and isinstance(r, list) and r[0] == "i" and r[1] == 0 \
                             and any(x[0] == "m" and x[2] == "dp" for x in ir.walk(fn, l[1])):
                         cleared = True
+                        # the clearing loop reaches the last digit brought into use: its index bound covers the new count
+                        from .. import extent
+                        ik = key(fn, l[2])
+                        covers = None
+                        for x in st:
+                            if x[0] == "rel" and x[1] == ik and x[2] in ("<", "<="):
+                                pk, pn = extent.norm_poly(x[3], st), extent.norm_poly(newk, st)
+                                if pk is not None and pn is not None:
+                                    cover = pk + extent.Poly.const(1 if x[2] == "<=" else 0)
+                                    ok = extent.prove_nonneg(cover - pn, st)
+                                    covers = ok if covers is None else (covers or ok)
+                        if covers is False:
+                            short = (nd, fn.fmt(e)[:40])
                 for c in ir.calls_in(fn, e):
                     if c[1] in ("dv_zero", "memset") and c[2] and ir.base_var(fn, c[2][0]) == bv:
                         cleared = True
             nm = fn.vars[bv]["n"]
-            if cleared:
+            if cleared and short is not None:
+                chk.fail("GROW-CLEAR", fn, nm, "the loop that clears the digits brought into use (`%s`) stops before the new digit count `%s`: the last new digit keeps what the object held before" % (
+                    short[1], engines.fmt_key(fn, newk)), line=short[0].line())
+            elif cleared:
                 chk.ok("GROW-CLEAR", fn, nm, "digits brought into use are cleared under the growth test", line=el.line)
             else:
                 chk.fail("GROW-CLEAR", fn, nm, "the digit count of `%s` is raised above its old value while the integer keeps its digits, and nothing under the growth test clears the digits brought into use: they are unspecified (left over from earlier, longer values)" % nm, line=el.line)
